@@ -50,6 +50,8 @@ pub enum BytesMode {
 	SeqNone,
 	/// `serialize_seq(Some(len))` + u8 elements
 	SeqSome,
+	/// `serialize_tuple(len)` + u8 elements
+	Tuple,
 }
 #[derive(Clone, Copy, Debug)]
 pub struct Recipe {
@@ -76,6 +78,13 @@ pub fn present(v: &RValue, s: &RSchema, env: &Env, r: &Recipe, depth: usize) -> 
 			BytesMode::Bytes => Pres::Bytes(b.clone()),
 			BytesMode::SeqNone => Pres::Seq { len: None, elems: b.iter().map(|x| Pres::U8(*x)).collect() },
 			BytesMode::SeqSome => Pres::Seq { len: Some(b.len()), elems: b.iter().map(|x| Pres::U8(*x)).collect() },
+			BytesMode::Tuple => Pres::Tuple(b.iter().map(|x| Pres::U8(*x)).collect()),
+		},
+		(RSchema::Fixed { .. }, RValue::Fixed(b)) => match r.bytes {
+			BytesMode::Bytes => Pres::Bytes(b.clone()),
+			BytesMode::SeqNone => Pres::Seq { len: None, elems: b.iter().map(|x| Pres::U8(*x)).collect() },
+			BytesMode::SeqSome => Pres::Seq { len: Some(b.len()), elems: b.iter().map(|x| Pres::U8(*x)).collect() },
+			BytesMode::Tuple => Pres::Tuple(b.iter().map(|x| Pres::U8(*x)).collect()),
 		},
 		(RSchema::Union(bs), RValue::Union(i, inner)) => {
 			if matches!(env.resolve(&bs[*i]), RSchema::Null) {
@@ -129,6 +138,8 @@ pub fn present(v: &RValue, s: &RSchema, env: &Env, r: &Recipe, depth: usize) -> 
 pub const TAG_BUFFERED: u8 = 1;
 pub const TAG_NESTED_OOO: u8 = 2;
 pub const TAG_SEQBYTES: u8 = 4;
+/// element of a known-length seq / tuple presented to bytes or fixed
+pub const TAG_SIZED_SEQ: u8 = 8;
 
 /// One tag byte per `Pres::serialize` call, in call order: where (relative to the serializer's
 /// buffering) the call happens. Used only for coverage accounting of fail_at(v, k).
@@ -188,7 +199,12 @@ fn annotate(p: &Pres, s: &RSchema, env: &Env, buffered: bool, nested_ooo: bool, 
 			match s {
 				RSchema::Bytes => {
 					for _ in elems {
-						out.push(tag | if len.is_none() { TAG_SEQBYTES } else { 0 });
+						out.push(tag | if len.is_none() { TAG_SEQBYTES } else { TAG_SIZED_SEQ });
+					}
+				}
+				RSchema::Fixed { .. } => {
+					for _ in elems {
+						out.push(tag | TAG_SIZED_SEQ);
 					}
 				}
 				RSchema::Array(item) => {
@@ -197,6 +213,12 @@ fn annotate(p: &Pres, s: &RSchema, env: &Env, buffered: bool, nested_ooo: bool, 
 					}
 				}
 				_ => {}
+			}
+		}
+		Pres::Tuple(elems) => {
+			out.push(tag);
+			for _ in elems {
+				out.push(tag | TAG_SIZED_SEQ);
 			}
 		}
 		_ => out.push(tag),
@@ -297,7 +319,10 @@ fn unit_top(id: usize, allow_slow: bool) -> Unit {
 	let values = make_values(&schema, &env, &list);
 	let base = present(&full, &schema, &env, &recipe(Rev, Rev, Bytes, 0, false), 0);
 	let base_seq = present(&full, &schema, &env, &recipe(Rev, Rev, SeqNone, 0, false), 0);
+	let base_id = present(&full, &schema, &env, &recipe(Id, Id, Bytes, 0, false), 0);
 	let naturals: Vec<(String, Pres)> = vec![
+		("a, b, d presented: nullable c omitted and d ahead of its turn BEFORE the missing required e".into(), edited(&base_id, &[], |f| f.retain(|(k, _)| ["a", "b", "d"].contains(k)))),
+		("nested: only x presented in Inner (nullable z after missing required y), Inner in order".into(), edited(&base_id, &["d"], |f| f.retain(|(k, _)| *k == "x"))),
 		("unknown field after two buffered fields".into(), edited(&base, &[], |f| f.insert(2, ("zz", Pres::I32(0))))),
 		("duplicate of a buffered field (e, d, e, …)".into(), edited(&base, &[], |f| f.insert(2, ("e", Pres::Bytes(vec![7]))))),
 		("duplicate of an emitted field after the flush (…, a, b)".into(), edited(&base, &[], |f| f.push(("b", Pres::str("again"))))),
@@ -374,6 +399,79 @@ fn unit_bytes(id: usize, allow_slow: bool) -> Unit {
 	Unit { id, name: format!("B{{h:bytes,g:bytes}} allow_slow_sequence_to_bytes={allow_slow}"), schema, allow_slow, values, naturals }
 }
 
+/// Q{a:int, b:[null,string], c:int, d:int}: a skipped nullable / ahead-of-turn field before a
+/// missing required one (failing), records that leave work for end() (probes)
+fn unit_opt_before_required(id: usize) -> Unit {
+	use BytesMode::*;
+	use Order::*;
+	let schema = RSchema::record("Q", vec![("a", RSchema::Int), ("b", RSchema::Union(vec![RSchema::Null, RSchema::String])), ("c", RSchema::Int), ("d", RSchema::Int)]);
+	let with_b = RValue::Record(vec![RValue::Int(5), u(1, RValue::Str("s".into())), RValue::Int(6), RValue::Int(7)]);
+	let no_b = RValue::Record(vec![RValue::Int(5), u(0, RValue::Null), RValue::Int(6), RValue::Int(7)]);
+	let env = Env::new(&schema);
+	let list: Vec<(&RValue, Recipe)> = vec![
+		(&with_b, recipe(Id, Id, Bytes, 0, false)),
+		(&no_b, recipe(Id, Id, Bytes, 0, true)),
+		(&no_b, recipe(Rev, Id, Bytes, 0, true)),
+		(&no_b, recipe(Perm(1), Id, Bytes, 1, true)),
+		(&with_b, recipe(Rev, Id, Bytes, 2, false)),
+		(&no_b, recipe(Id, Id, Bytes, 0, false)),
+	];
+	let values = make_values(&schema, &env, &list);
+	let base = present(&with_b, &schema, &env, &recipe(Id, Id, Bytes, 0, false), 0);
+	let naturals: Vec<(String, Pres)> = vec![
+		("only a and c presented: nullable b skipped, c ahead of its turn, required d missing".into(), edited(&base, &[], |f| f.retain(|(k, _)| *k == "a" || *k == "c"))),
+		("only a and d presented: nullable b skipped, required c missing, d buffered".into(), edited(&base, &[], |f| f.retain(|(k, _)| *k == "a" || *k == "d"))),
+		("only a presented: nullable b skipped, required c missing".into(), edited(&base, &[], |f| f.retain(|(k, _)| *k == "a"))),
+		("c, a presented: c buffered then flushed... b skipped, d missing".into(), edited(&base, &[], |f| {
+			f.retain(|(k, _)| *k == "a" || *k == "c");
+			f.reverse()
+		})),
+		("nothing presented: required a missing first".into(), edited(&base, &[], |f| f.clear())),
+	];
+	Unit { id, name: "Q{a:int,b:[null,string],c:int,d:int} allow_slow_sequence_to_bytes=false".into(), schema, allow_slow: false, values, naturals }
+}
+
+/// S{h:bytes, f:fixed(3), t:bytes}: known-length seq / tuple -> bytes AND -> fixed, as probes and
+/// failing at element k >= 1
+fn unit_sized(id: usize) -> Unit {
+	use BytesMode::*;
+	use Order::*;
+	let schema = RSchema::record("S", vec![("h", RSchema::Bytes), ("f", RSchema::fixed("Fx", 3)), ("t", RSchema::Bytes)]);
+	let v = RValue::Record(vec![RValue::Bytes(vec![7, 8, 9]), RValue::Fixed(vec![4, 4, 5]), RValue::Bytes(vec![1, 2])]);
+	let env = Env::new(&schema);
+	let list: Vec<(&RValue, Recipe)> = vec![
+		(&v, recipe(Id, Id, Bytes, 0, false)),
+		(&v, recipe(Id, Id, SeqSome, 0, false)),
+		(&v, recipe(Id, Id, Tuple, 0, false)),
+		(&v, recipe(Rev, Id, SeqSome, 0, false)),
+		(&v, recipe(Rev, Id, Tuple, 1, false)),
+		(&v, recipe(Perm(2), Id, SeqNone, 0, false)),
+	];
+	let values = make_values(&schema, &env, &list);
+	let seq = present(&v, &schema, &env, &recipe(Id, Id, SeqSome, 0, false), 0);
+	let tup = present(&v, &schema, &env, &recipe(Id, Id, Tuple, 0, false), 0);
+	let set = |base: &Pres, key: &'static str, p: Pres, rev: bool| {
+		edited(base, &[], |f| {
+			f.iter_mut().filter(|(k, _)| *k == key).for_each(|(_, v)| *v = p.clone());
+			if rev {
+				f.reverse()
+			}
+		})
+	};
+	let u8p = |v: &[u8]| -> Vec<Pres> { v.iter().map(|x| Pres::U8(*x)).collect() };
+	let mut naturals: Vec<(String, Pres)> = Vec::new();
+	for rev in [false, true] {
+		let pos = if rev { "fields reversed (buffered)" } else { "in order" };
+		naturals.push((format!("seq len Some(3) -> bytes h with 300u16 as third element, {pos}"), set(&seq, "h", Pres::Seq { len: Some(3), elems: vec![Pres::U8(1), Pres::U8(2), Pres::U16(300)] }, rev)));
+		naturals.push((format!("tuple -> fixed f with a str as third element, {pos}"), set(&tup, "f", Pres::Tuple(vec![Pres::U8(1), Pres::U8(2), Pres::str("x")]), rev)));
+		naturals.push((format!("seq len Some(3) -> fixed f with a fourth element, {pos}"), set(&seq, "f", Pres::Seq { len: Some(3), elems: u8p(&[1, 2, 3, 4]) }, rev)));
+		naturals.push((format!("seq len Some(2) -> bytes t with a third element, {pos}"), set(&seq, "t", Pres::Seq { len: Some(2), elems: u8p(&[1, 2, 3]) }, rev)));
+		naturals.push((format!("tuple -> bytes t with negative i8 as second element, {pos}"), set(&tup, "t", Pres::Tuple(vec![Pres::U8(1), Pres::I8(-1)]), rev)));
+		naturals.push((format!("tuple of 2 -> fixed(3) f (size mismatch up front), {pos}"), set(&tup, "f", Pres::Tuple(u8p(&[1, 2])), rev)));
+	}
+	Unit { id, name: "S{h:bytes,f:fixed(3),t:bytes} allow_slow_sequence_to_bytes=true".into(), schema, allow_slow: true, values, naturals }
+}
+
 fn make_values(schema: &RSchema, env: &Env, list: &[(&RValue, Recipe)]) -> Vec<Val> {
 	list.iter()
 		.enumerate()
@@ -420,10 +518,10 @@ fn unit_top_perms(id: usize, second: bool) -> Unit {
 }
 
 pub fn units(thorough: bool) -> Vec<Unit> {
-	let mut v = vec![unit_top(0, true), unit_top(1, false), unit_arrays(2, true), unit_arrays(3, false), unit_bytes(4, true), unit_bytes(5, false)];
+	let mut v = vec![unit_top(0, true), unit_top(1, false), unit_arrays(2, true), unit_arrays(3, false), unit_bytes(4, true), unit_bytes(5, false), unit_opt_before_required(6), unit_sized(7)];
 	if thorough {
-		v.push(unit_top_perms(6, false));
-		v.push(unit_top_perms(7, true));
+		v.push(unit_top_perms(8, false));
+		v.push(unit_top_perms(9, true));
 	}
 	v
 }
@@ -444,6 +542,16 @@ fn model_bytes(u: &Unit) -> Vec<Vec<u8>> {
 		.collect()
 }
 
+fn u8s(elems: &[Pres]) -> Vec<u8> {
+	elems
+		.iter()
+		.map(|e| match e {
+			Pres::U8(x) => *x,
+			_ => panic!("MACHINERY: C14 rvalue_of element"),
+		})
+		.collect()
+}
+
 /// The value a (valid, complete-or-nullable-omitted) presentation of this module denotes.
 fn rvalue_of(p: &Pres, s: &RSchema, env: &Env) -> RValue {
 	let s = env.resolve(s);
@@ -458,15 +566,9 @@ fn rvalue_of(p: &Pres, s: &RSchema, env: &Env) -> RValue {
 		(Pres::I64(i), RSchema::Long) => RValue::Long(*i),
 		(Pres::Str(x), RSchema::String) => RValue::Str(x.clone()),
 		(Pres::Bytes(b), RSchema::Bytes) => RValue::Bytes(b.clone()),
-		(Pres::Seq { elems, .. }, RSchema::Bytes) => RValue::Bytes(
-			elems
-				.iter()
-				.map(|e| match e {
-					Pres::U8(x) => *x,
-					_ => panic!("MACHINERY: C14 rvalue_of element"),
-				})
-				.collect(),
-		),
+		(Pres::Bytes(b), RSchema::Fixed { .. }) => RValue::Fixed(b.clone()),
+		(Pres::Seq { elems, .. }, RSchema::Bytes) | (Pres::Tuple(elems), RSchema::Bytes) => RValue::Bytes(u8s(elems)),
+		(Pres::Seq { elems, .. }, RSchema::Fixed { .. }) | (Pres::Tuple(elems), RSchema::Fixed { .. }) => RValue::Fixed(u8s(elems)),
 		(Pres::Seq { elems, .. }, RSchema::Array(item)) => RValue::Array(elems.iter().map(|e| rvalue_of(e, item, env)).collect()),
 		(Pres::Struct { .. }, RSchema::Record { fields, .. }) | (Pres::Map { .. }, RSchema::Record { fields, .. }) => {
 			let entries: Vec<(String, &Pres)> = match p {
@@ -670,6 +772,7 @@ pub fn alphabet(u: &Unit, cs: &serde_avro_fast::Schema, cover: &mut Cover, out: 
 fn has_seq_bytes(p: &Pres) -> bool {
 	match p {
 		Pres::Seq { elems, .. } => elems.iter().all(|e| matches!(e, Pres::U8(_))) || elems.iter().any(has_seq_bytes),
+		Pres::Tuple(elems) => elems.iter().all(|e| matches!(e, Pres::U8(_))),
 		Pres::Some(i) => has_seq_bytes(i),
 		Pres::Struct { fields, .. } => fields.iter().any(|(_, v)| has_seq_bytes(v)),
 		Pres::Map { entries, .. } => entries.iter().any(|(_, v)| has_seq_bytes(v)),
@@ -718,6 +821,9 @@ fn run_unit(u: &Unit, depth: usize, max_states: u64) -> (Cover, Vec<Violation>, 
 				if t & TAG_NESTED_OOO != 0 {
 					cover.count("ops_fail_at_inside_nested_out_of_order_record_in_buffer", 1);
 				}
+				if t & TAG_SIZED_SEQ != 0 {
+					cover.count("ops_fail_at_inside_known_length_seq_or_tuple_to_bytes_or_fixed", 1);
+				}
 				if t & TAG_SEQBYTES != 0 {
 					cover.count("ops_fail_at_inside_buffered_seq_to_bytes", 1);
 					if t & TAG_BUFFERED != 0 {
@@ -728,6 +834,16 @@ fn run_unit(u: &Unit, depth: usize, max_states: u64) -> (Cover, Vec<Violation>, 
 			Op::IoFail(..) => cover.count("ops_io_fail", 1),
 			Op::Natural(_) => cover.count("ops_rejected_by_the_crate", 1),
 		}
+	}
+	let mut probes: Vec<u16> = a.ops.iter().enumerate().filter(|(_, op)| matches!(op, Op::Ok(_))).map(|(i, _)| i as u16).collect();
+	if probes.len() > 12 {
+		// the 120-order units: every 10th order as lookahead probe (all 120 stay operations of the BFS itself)
+		probes = probes.into_iter().step_by(10).collect();
+	}
+	cover.count("lookahead_probe_values", probes.len() as u64);
+	let lookahead = std::env::var("C14_NO_LOOKAHEAD").is_err();
+	if !lookahead {
+		cover.caps.push("development switch C14_NO_LOOKAHEAD".into());
 	}
 	let mut seen: HashSet<Pools> = HashSet::new();
 	let mut shapes: BTreeSet<(usize, usize)> = BTreeSet::new();
@@ -742,24 +858,65 @@ fn run_unit(u: &Unit, depth: usize, max_states: u64) -> (Cover, Vec<Violation>, 
 		if frontier.is_empty() {
 			break;
 		}
-		let results: Vec<(Vec<u16>, OpObs, Pools)> = frontier
+		// One-step lookahead: the pools read through the hook need not be the whole state of a
+		// configuration (a change may keep further state the hook does not show). So after EVERY
+		// transition - also those that end in an already known pool state and are therefore not
+		// expanded - every ok(v) is run once as a probe from the resulting state (history ++ [op] ++
+		// [probe] re-executed on a fresh configuration) and judged like any other operation.
+		type Probe = (Vec<u16>, OpObs, Pools);
+		let results: Vec<(Vec<u16>, OpObs, Pools, u64, Vec<Probe>)> = frontier
 			.par_iter()
 			.flat_map_iter(|h| {
 				let cs = &cs;
 				let a = &a;
+				let probes = &probes;
 				(0..n_ops as u16).map(move |o| {
 					let mut hh = h.clone();
 					hh.push(o);
 					let (obs, pools) = exec(u, cs, &a.ops, &hh);
-					(hh, obs.unwrap(), pools)
+					let obs = obs.unwrap();
+					let mut failed: Vec<Probe> = Vec::new();
+					let mut n = 0u64;
+					if lookahead && !obs.out.is_panic() {
+						for &p in probes.iter() {
+							let mut h2 = hh.clone();
+							h2.push(p);
+							let (o2, pl2) = exec(u, cs, &a.ops, &h2);
+							let o2 = o2.unwrap();
+							n += 1;
+							if !judge(a, &h2, &o2, &pl2).is_empty() && failed.len() < 3 {
+								failed.push((h2, o2, pl2));
+							}
+						}
+					}
+					(hh, obs, pools, n, failed)
 				})
 			})
 			.collect();
 		let mut next: Vec<Vec<u16>> = Vec::new();
-		for (hh, obs, pools) in results {
-			cover.transitions += 1;
-			cover.evaluations += 1;
-			cover.impl_runs += hh.len() as u64;
+		for (hh, obs, pools, n_probes, failed_probes) in results {
+			cover.transitions += 1 + n_probes;
+			cover.evaluations += 1 + n_probes;
+			cover.impl_runs += hh.len() as u64 + n_probes * (hh.len() as u64 + 1);
+			cover.count("lookahead_probes_after_every_transition", n_probes);
+			for (h2, o2, pl2) in failed_probes {
+				if out.len() >= 60 {
+					break;
+				}
+				let (o3, pl3) = exec(u, &cs, &a.ops, &h2);
+				if o3.as_ref().map(|o| o.same_as(&o2)) != Some(true) || pl3 != pl2 {
+					eprintln!("MACHINERY: C14 unit {} history {h2:?} is not deterministic", u.id);
+					std::process::exit(2);
+				}
+				let hist_text: Vec<String> = h2.iter().map(|o| op_text(u, a.ops[*o as usize])).collect();
+				for (class, what) in judge(&a, &h2, &o2, &pl2) {
+					out.push(Violation {
+						class,
+						what: format!("unit {}: schema {text}; history on ONE SerializerConfig: {hist_text:?}; {what}; last value presented (probe): {:?}", u.name, op_pres(u, a.ops[*h2.last().unwrap() as usize])),
+						replay: json!({"check": "C14", "unit": u.id, "history": h2, "history_text": hist_text, "schema": text}),
+					});
+				}
+			}
 			let o = *hh.last().unwrap() as usize;
 			if matches!(a.ops[o], Op::Ok(_)) {
 				cover.count("probes_compared_with_fresh_config", 1);
@@ -838,7 +995,7 @@ pub fn run(rep: &mut Report) {
 	}
 	let us = units(thorough);
 	rep.rule = format!(
-		"HIST: BFS over histories of operations on ONE SerializerConfig, {} units = 3 schemas (Top{{a:int,b:string,c:[null,int],d:Inner{{x:int,y:bytes,z:[null,string]}},e:bytes}}; T2{{p:array<Item{{x,y:bytes}}>,q:int,r:Mid{{m:Leaf{{u,w}},k:long}}}}; B{{h:bytes,g:bytes}}) x allow_slow_sequence_to_bytes on/off. Values: presentations of a fixed datum by (outer order, nested order, bytes as serialize_bytes / seq len None / seq len Some, struct / map-entry / map-split, nulls omitted). Operations: ok(v) for every value; fail_at(v,k) for EVERY serde call index k of v (pres::with_failure); io_fail(v,n) = sink erroring after n bytes for EVERY n < |encoding|; rejected(f) = presentations the crate rejects by itself (unknown/duplicate/missing field with buffers outstanding, bad element inside buffered seq->bytes, length mismatch). Depth bound {depth} (histories of up to {depth} operations, each followed by every operation as a probe); a state is rebuilt by replaying its history on a fresh configuration; exact key = ordered (len, capacity) of every pooled field buffer and super-buffer (hook H4), new states only are expanded, level-synchronous, state cap {max_states} per unit. Invariant after EVERY operation in every state: no panic; outcome kind and the bytes that reached the sink equal those of the same operation on a fresh configuration (for ok(v): = reference encoder); every pooled buffer and super-buffer has len 0. Non-trivial = executed histories of >= 2 operations (the configuration has been used before the judged operation), distinct on (unit, history); every such history is the representative history of a distinct pool state followed by one operation.",
+		"HIST: BFS over histories of operations on ONE SerializerConfig, {} units = 3 schemas (Top{{a:int,b:string,c:[null,int],d:Inner{{x:int,y:bytes,z:[null,string]}},e:bytes}}; T2{{p:array<Item{{x,y:bytes}}>,q:int,r:Mid{{m:Leaf{{u,w}},k:long}}}}; B{{h:bytes,g:bytes}}) x allow_slow_sequence_to_bytes on/off, Q{{a:int,b:[null,string],c:int,d:int}} (nullable / ahead-of-turn field before a missing required one), S{{h:bytes,f:fixed(3),t:bytes}} (known-length seq and tuple -> bytes and -> fixed), thorough: Top with all 120 outer orders of two data. Values: presentations of a fixed datum by (outer order, nested order, bytes as serialize_bytes / seq len None / seq len Some / tuple, struct / map-entry / map-split, nulls omitted). Operations: ok(v) for every value; fail_at(v,k) for EVERY serde call index k of v (pres::with_failure); io_fail(v,n) = sink erroring after n bytes for EVERY n < |encoding|; rejected(f) = presentations the crate rejects by itself (unknown/duplicate/missing field with buffers outstanding, bad element inside buffered seq->bytes, length mismatch). Depth bound {depth} (histories of up to {depth} operations, each followed by every operation as a probe); a state is rebuilt by replaying its history on a fresh configuration; exact key = ordered (len, capacity) of every pooled field buffer and super-buffer (hook H4), new states only are expanded, level-synchronous, state cap {max_states} per unit; because the hook need not show all state a configuration keeps, after EVERY transition (also into an already known pool state) every ok(v) (in the two 120-order units of the thorough tier: every 10th order) is additionally run once as a probe from the resulting state (history ++ [op] ++ [probe] on a fresh configuration, one-step lookahead) and judged the same way. Invariant after EVERY operation in every state: no panic; outcome kind and the bytes that reached the sink equal those of the same operation on a fresh configuration (for ok(v): = reference encoder); every pooled buffer and super-buffer has len 0. Non-trivial = executed histories of >= 2 operations (the configuration has been used before the judged operation), distinct on (unit, history); every such history is the representative history of a distinct pool state followed by one operation.",
 		us.len()
 	);
 	rep.assumptions.push("a zero-length Vec's former contents are unobservable in safe Rust, hence (len, capacity) lists of the two pools + the allow_slow flag are the complete state of a SerializerConfig".into());
@@ -863,6 +1020,8 @@ pub fn run(rep: &mut Report) {
 		"ops_fail_at_inside_nested_out_of_order_record_in_buffer",
 		"ops_fail_at_inside_buffered_seq_to_bytes",
 		"ops_fail_at_inside_buffered_seq_to_bytes_inside_buffered_field",
+		"ops_fail_at_inside_known_length_seq_or_tuple_to_bytes_or_fixed",
+		"lookahead_probes_after_every_transition",
 		"ops_io_fail",
 		"ops_rejected_by_the_crate",
 		"probes_compared_with_fresh_config",
